@@ -2,9 +2,10 @@
    Statements about the reference semantics; both Go join engines (Relation.Join
    with its positional strategies and GenericJoin) are tied to it by the
    correspondence run over heading partitions, stored column orders and operand
-   representations.  `unnest` has no working surface syntax in the pinned tree
+   representations.  The positional engine (Relation x Relation) is in addition transcribed
+   (Rep/RelJoin.v) and proved to refine the specification join: the last block of this file.  `unnest` has no working surface syntax in the pinned tree
    (compileArrow panics "unfinished"), so it is outside the claim (C10 finding). *)
-From Arrai Require Import Base.Val Spec.SetAlg Eval.Interp Proofs.ValOrder Proofs.SetAlgP Proofs.RelP.
+From Arrai Require Import Base.Val Spec.SetAlg Eval.Interp Proofs.ValOrder Proofs.SetAlgP Proofs.RelP Proofs.RankP.
 
 Theorem C04_join_is_the_set_of_agreeing_combinations :
   forall op a b ha hb r,
@@ -86,3 +87,181 @@ Proof.
   - apply single_nest_operator_is_single_nest_data, Ha.
 Qed.
 Print Assumptions C04_operators_are_these_functions.
+
+(* rank: the value of `a rank f` is the set of the rows of a, each extended - for every attribute k of its key
+   tuple f(row) - with the number of rows whose k is strictly smaller (ties share a rank); one result row per
+   source row, nothing else; for every operand, key function, scope and fuel *)
+Theorem C04_rank_is_these_rows :
+  forall fuel rho a fn m l cenv p body r,
+    eval fuel rho a = Ok (D (VSet (m :: l))) -> eval fuel rho fn = Ok (Clos cenv p body) ->
+    eval (S fuel) rho (ERank a fn) = Ok (D r) ->
+    exists keyed rows, mapM (clos_key fuel cenv p body) (m :: l) = Ok keyed /\ rank_rows keyed = Ok rows /\ r = mkset rows.
+Proof. exact eval_rank_characterised. Qed.
+Print Assumptions C04_rank_is_these_rows.
+
+Theorem C04_rank_rows_one_per_source_row :
+  forall keyed rows, rank_rows keyed = Ok rows ->
+    length rows = length keyed /\
+    forall i tk, nth_error keyed i = Some tk ->
+      exists ranks, mapM (rank_of keyed) (snd tk) = Ok ranks /\ nth_error rows i = Some (build_tuple (fst tk ++ ranks)).
+Proof. exact rank_rows_rowwise. Qed.
+Print Assumptions C04_rank_rows_one_per_source_row.
+
+Theorem C04_rank_counts_strictly_smaller_keys :
+  forall keyed k x r, rank_of keyed (k, VNum x) = Ok r -> r = (k, vint (Z.of_nat (count_smaller keyed k x))).
+Proof. exact rank_of_is_count. Qed.
+Print Assumptions C04_rank_counts_strictly_smaller_keys.
+
+From Arrai Require Import Rep.RelJoin Proofs.RelJoinP Rep.GenJoin Proofs.GenJoinP.
+(* ------------------------------------------------------------------------------------------
+   The positional join engine of the implementation (Rep/RelJoin.v: Relation.Join,
+   positionalRelation.Join with createMode and its four strategies, the Joiner's choice of
+   common / left / right output names for the eight operators), inside the model.
+
+   A Relation stores an attribute list in *stored* order (not sorted), a projector p (attribute i
+   lives in column p[i]) and a duplicate-free set of positional rows; abs turns it into the
+   canonical set of tuples it denotes.  wf_rel is the representation invariant: distinct names,
+   p a permutation of the columns, every row of the heading's width, no duplicate row, not empty. *)
+
+(* For EVERY pair of stored layouts (any column order and projector on each side, any overlap of
+   the headings) and all eight operators: the engine does not panic, what it returns denotes
+   exactly the specification join of the two denotations, and a Relation result satisfies the
+   representation invariant again (so joins compose). *)
+Theorem C04_positional_join_refines_spec :
+  forall op a b, wf_rel a -> wf_rel b ->
+    exists s, join_rel op a b = JOk s /\ join_data op (abs a) (abs b) = Ok (den s) /\ wf_jset s.
+Proof. exact positional_join_refines_spec. Qed.
+Print Assumptions C04_positional_join_refines_spec.
+
+(* The result does not depend on the stored column order, projector or row order of either operand. *)
+Theorem C04_join_independent_of_stored_layout :
+  forall op a a' b b', wf_rel a -> wf_rel a' -> wf_rel b -> wf_rel b' -> abs a = abs a' -> abs b = abs b' ->
+    exists s s', join_rel op a b = JOk s /\ join_rel op a' b' = JOk s' /\ den s = den s'.
+Proof. exact join_independent_of_layout. Qed.
+Print Assumptions C04_join_independent_of_stored_layout.
+
+(* In particular: listing the stored columns of either operand in another order (heading and projector
+   permuted alike, same rows) is the same relation and joins to the same result. *)
+Theorem C04_relisting_columns_is_the_same_relation :
+  forall q r, wf_rel r -> is_perm q (length (r_attrs r)) ->
+    wf_rel (permute_cols q r) /\ abs (permute_cols q r) = abs r.
+Proof. exact permute_cols_same_relation. Qed.
+Print Assumptions C04_relisting_columns_is_the_same_relation.
+
+Theorem C04_join_ignores_stored_column_order :
+  forall op a b qa qb, wf_rel a -> wf_rel b -> is_perm qa (length (r_attrs a)) -> is_perm qb (length (r_attrs b)) ->
+    exists s s', join_rel op (permute_cols qa a) (permute_cols qb b) = JOk s' /\ join_rel op a b = JOk s /\ den s' = den s.
+Proof. exact join_ignores_column_order. Qed.
+Print Assumptions C04_join_ignores_stored_column_order.
+
+(* positionalRelation.Join itself, on projectors: whichever of JoinKeepEverything / joinOneSide /
+   JoinCommonOnly / JoinIfCommonExist createMode selects, the rows returned are exactly
+   leftOutput(t) ++ rightOutput(u) for the pairs of rows whose key cells are equal, without
+   duplicates - provided one output is empty or both reach outside their keys (join_shape: the only
+   shapes the eight operators produce) and no key is output partially (createMode's own panic). *)
+Theorem C04_positional_engine_returns_the_agreeing_combinations :
+  forall r r2 w1 w2 lk rk lo ro,
+    width_is r w1 -> width_is r2 w2 -> r <> [] -> r2 <> [] -> NoDup r -> NoDup r2 ->
+    inrange lk w1 -> inrange lo w1 -> inrange rk w2 -> inrange ro w2 ->
+    length lk = length rk -> partial_key lk rk lo ro = false -> join_shape lk rk lo ro ->
+    exists rows, positional_join r r2 lk rk lo ro = JOk rows /\ NoDup rows /\
+      forall x, In x rows <-> exists t u, matching r r2 lk rk t u /\ x = pick lo t ++ pick ro u.
+Proof. exact positional_join_spec. Qed.
+Print Assumptions C04_positional_engine_returns_the_agreeing_combinations.
+
+(* Outside those shapes positionalRelation.Join is NOT a join: with both outputs inside their keys it
+   answers {()} where the pair (1, 1) is asked for.  No operator reaches this (partition_good). *)
+Theorem C04_positional_engine_outside_its_shapes_refuted :
+  exists r r2 lk rk lo ro rows,
+    partial_key lk rk lo ro = false /\ positional_join r r2 lk rk lo ro = JOk rows /\
+    ~ (forall x, In x rows <-> exists t u, matching r r2 lk rk t u /\ x = pick lo t ++ pick ro u).
+Proof.
+  exists [[vint 1]], [[vint 1]], [0%nat], [0%nat], [0%nat], [0%nat], [[]].
+  split; [reflexivity|]. split; [vm_compute; reflexivity|].
+  intros H. destruct (proj1 (H []) (or_introl eq_refl)) as (t & u & _ & E). discriminate.
+Qed.
+Print Assumptions C04_positional_engine_outside_its_shapes_refuted.
+
+(* Every index the engine hands to a row lies inside the row (the model's default cell is never read;
+   the Go code cannot fail with "index out of range" on well-formed operands). *)
+Theorem C04_join_never_indexes_outside_a_row :
+  forall op a b, wf_rel a -> wf_rel b ->
+    let common := ns_intersect (r_attrs a) (r_attrs b) in
+    let lo := fst (partitionNames op (r_attrs a) (r_attrs b) common) in
+    let ro := snd (partitionNames op (r_attrs a) (r_attrs b) common) in
+    exists lki rki loi roi,
+      getIndices (r_attrs a) common = Some lki /\ getIndices (r_attrs b) common = Some rki /\
+      getIndices (r_attrs a) lo = Some loi /\ getIndices (r_attrs b) ro = Some roi /\
+      (forall v, In v (r_rows a) -> inrange (compose (r_p a) lki) (length v) /\ inrange (compose (r_p a) loi) (length v)) /\
+      (forall v, In v (r_rows b) -> inrange (compose (r_p b) rki) (length v) /\ inrange (compose (r_p b) roi) (length v)).
+Proof. exact join_indices_in_range. Qed.
+Print Assumptions C04_join_never_indexes_outside_a_row.
+
+(* Count() of a Relation - its number of stored rows - is the cardinality of the set it denotes. *)
+Theorem C04_relation_count_is_cardinality : forall r, wf_rel r -> length (abs r) = length (r_rows r).
+Proof. exact count_is_cardinality. Qed.
+Print Assumptions C04_relation_count_is_cardinality.
+
+(* the invariant is the executable test the correspondence run applies to every observed operand *)
+Theorem C04_invariant_is_what_the_check_tests : forall r, wf_relb r = true <-> wf_rel r.
+Proof. exact wf_relb_spec. Qed.
+Print Assumptions C04_invariant_is_what_the_check_tests.
+
+(* the hypotheses are satisfiable by non-trivial values: a join-built relation stored as (c, a), the
+   same denotation stored as (a, c) through a non-identity projector, and a literal over (a, b) *)
+Definition ex_ca : relation :=
+  {| r_attrs := [[99]; [97]]; r_p := [0; 1]%nat; r_rows := [[vint 1; vint 5]; [vint 2; vint 5]; [vint 3; vint 7]] |}.
+Definition ex_ac : relation :=
+  {| r_attrs := [[97]; [99]]; r_p := [1; 0]%nat; r_rows := [[vint 3; vint 7]; [vint 1; vint 5]; [vint 2; vint 5]] |}.
+Definition ex_ab : relation :=
+  {| r_attrs := [[97]; [98]]; r_p := [0; 1]%nat; r_rows := [[vint 5; vint 6]; [vint 7; vint 8]; [vint 9; vint 9]] |}.
+
+Example C04_example_operands_are_well_formed : wf_rel ex_ca /\ wf_rel ex_ac /\ wf_rel ex_ab /\ abs ex_ca = abs ex_ac.
+Proof. repeat split; try (apply wf_relb_spec; vm_compute; reflexivity). Qed.
+
+Example C04_example_join :
+  join_rel JJoin ex_ca ex_ab
+  = JOk (JSRel {| r_attrs := [[99]; [97]; [98]]; r_p := [0; 1; 2]%nat;
+                  r_rows := [[vint 1; vint 5; vint 6]; [vint 2; vint 5; vint 6]; [vint 3; vint 7; vint 8]] |})
+  /\ join_data JJoin (abs ex_ca) (abs ex_ab)
+     = Ok (VSet [VTup [([97], vint 5); ([98], vint 6); ([99], vint 1)];
+                 VTup [([97], vint 5); ([98], vint 6); ([99], vint 2)];
+                 VTup [([97], vint 7); ([98], vint 8); ([99], vint 3)]])
+  /\ (forall op, match join_rel op ex_ca ex_ab, join_rel op ex_ac ex_ab with
+                 | JOk s, JOk s' => den s = den s'
+                 | _, _ => False
+                 end).
+Proof. split; [vm_compute; reflexivity|]. split; [vm_compute; reflexivity|]. intros op; destruct op; vm_compute; reflexivity. Qed.
+
+Example C04_example_permutation : is_perm [1; 0]%nat (length (r_attrs ex_ca)) /\ permute_cols [1; 0]%nat ex_ca
+  = {| r_attrs := [[97]; [99]]; r_p := [1; 0]%nat; r_rows := r_rows ex_ca |}.
+Proof. split; [|reflexivity]. split; [repeat constructor; simpl; intuition congruence|]. split; [reflexivity|]. intros i [<-|[<-|[]]]; simpl; lia. Qed.
+
+Example C04_example_engine_hypotheses :
+  width_is [[vint 1; vint 5]] 2 /\ inrange [1%nat] 2 /\ partial_key [1%nat] [0%nat] [0%nat; 1%nat] [1%nat] = false
+  /\ join_shape [1%nat] [0%nat] [0%nat; 1%nat] [1%nat].
+Proof.
+  split; [intros v [<-|[]]; reflexivity|]. split; [intros i [<-|[]]; lia|]. split; [reflexivity|].
+  right; right. split; reflexivity.
+Qed.
+
+(* ------------------------------------------------------------------------------------------
+   The generic engine (Rep/GenJoin.v: RelationAttrs, the Joiner's generic branch, GenericJoin with its
+   map from key to the two slots, the combine functions of the eight operators, Merge), used whenever
+   an operand is not a Relation: for all operands whose members are name-sorted tuples (every canonical
+   value) it never hands a nil tuple to the set builder and returns exactly the specification join -
+   including the error when an operand is not a relation. *)
+Theorem C04_generic_join_is_the_specification_join :
+  forall op a b, Forall tuple_sorted a -> Forall tuple_sorted b -> generic_join op a b = Some (join_data op a b).
+Proof. exact generic_join_is_join_data. Qed.
+Print Assumptions C04_generic_join_is_the_specification_join.
+
+Example C04_example_generic_operands :
+  Forall tuple_sorted [vitem 0 (vint 5); vitem 1 (vint 6)] /\
+  generic_join JCompose [vitem 0 (vint 5); vitem 1 (vint 6)] [VTup [(n_at, vint 1); ([120], vint 9)]]
+  = Some (Ok (VSet [VTup [(n_item, vint 6); ([120], vint 9)]])).
+Proof.
+  split; [|vm_compute; reflexivity].
+  apply Forall_cons; [|apply Forall_cons; [|apply Forall_nil]];
+    (split; [intros q [<-|[]]; reflexivity | split; [intros q [] | exact I]]).
+Qed.
